@@ -241,7 +241,7 @@ const STUBS: [&str; 3] = [
     "reader back-ends: SimSlice / SimSeg (harness implementations of rl2tp::Reader)",
     "channel: delivers octets unaltered (fault-free configuration)",
 ];
-const NA_BASELINE: &str = "none searched: this property has no fault, schedule or history in its quantifier; it is the delivery invariant of the simulation's fault-free configuration (message loss, reordering, crash, disk and clock faults do not apply to a codec call)";
+const NA_BASELINE: &str = "message loss, duplication, reordering, corruption in transit, crash, disk and clock faults do not apply: the property speaks of values the caller hands to the encoder, not of traffic; injected instead: execution environments and seam behaviours (see faults_fired)";
 
 // ===========================================================================
 // C03
@@ -418,7 +418,7 @@ impl Scenario for C03 {
     }
     fn meta() -> Meta {
         Meta {
-            rule: "FAULT-FREE BASELINE: no fault or schedule space is searched for this property. Each run draws a swarm (enabled AVP kinds, size regime incl. payloads of 249-257 and 1012-1017 octets, ASCII / multi-byte UTF-8 strings, uniform / extreme integers) and encodes 6 single AVPs (the run's forced kind twice, so all 39 kinds recur every 39 runs; one opaque hidden AVP of any attribute type) and 4 control messages (0-24 AVPs, occasionally filled to the 65535 limit) with the real encoder into a simulator-owned writer (real / flat / paged, PRNG prefix), then decodes strictly through a PRNG reader back-end; oracle decode_strict(encode(m)) = m[length := |encode(m)|]. distinct_nontrivial = distinct values that are control messages with >= 2 AVPs or single AVPs with more than 2 payload octets.",
+            rule: "NO TRANSPORT FAULT applies to this property (its quantifier has none); what is injected is the execution environment (one case in ten runs right after a refused operation on the same thread, or inside a destructor while the thread unwinds: faults_fired env-*) and the behaviour of the Reader/Writer seams. Each run draws a swarm (enabled AVP kinds, size regime incl. payloads of 249-257 and 1012-1017 octets, ASCII / multi-byte UTF-8 strings, uniform / extreme integers) and encodes 6 single AVPs (the run's forced kind twice, so all 39 kinds recur every 39 runs; one opaque hidden AVP of any attribute type) and 4 control messages (0-24 AVPs, occasionally filled to the 65535 limit) with the real encoder into a simulator-owned writer (real / flat / paged, PRNG prefix), then decodes strictly through a PRNG reader back-end; oracle decode_strict(encode(m)) = m[length := |encode(m)|]. distinct_nontrivial = distinct values that are control messages with >= 2 AVPs or single AVPs with more than 2 payload octets.",
             assumptions: vec![
                 "values are compared field by field through public fields; the private bitmask word is observed through AVP::write",
                 "the sent value is taken from the crate value actually handed to the encoder, so constructor defects (Bearer Capabilities) surface under C06, not here",
@@ -677,7 +677,7 @@ impl Scenario for C04 {
     }
     fn meta() -> Meta {
         Meta {
-            rule: "FAULT-FREE BASELINE: no fault or schedule space is searched for this property. Every run covers the complete lattice of 16 L/S/O/P combinations x offset size {0, 1, |data|-1} at one of the payload sizes {1,2,3,255,256} (rotating over runs), plus 8 PRNG data messages and, every 16th run, 65535-octet totals; ids/Ns/Nr at extremes; length absent or the true total. Encoded by the real encoder into a simulator-owned writer, decoded under the strictest options through a PRNG reader back-end; oracle decode(encode(d)) = d[offset := None, data := data[n..]] and the reader is empty afterwards. distinct_nontrivial = distinct (flag combination, offset, payload) triples.",
+            rule: "NO TRANSPORT FAULT applies to this property (its quantifier has none); what is injected is the execution environment (one case in ten runs right after a refused operation on the same thread, or inside a destructor while the thread unwinds: faults_fired env-*) and the behaviour of the Reader/Writer seams. Every run covers the complete lattice of 16 L/S/O/P combinations x offset size {0, 1, |data|-1} at one of the payload sizes {1,2,3,255,256} (rotating over runs), plus 8 PRNG data messages and, every 16th run, 65535-octet totals; ids/Ns/Nr at extremes; length absent or the true total. Encoded by the real encoder into a simulator-owned writer, decoded under the strictest options through a PRNG reader back-end; oracle decode(encode(d)) = d[offset := None, data := data[n..]] and the reader is empty afterwards. distinct_nontrivial = distinct (flag combination, offset, payload) triples.",
             assumptions: vec!["length, when present, counts octets from the first flag octet (property text)"],
             real: vec!["Message::write (data)", "Message::try_read_validate (strict)"],
             stub: STUBS.to_vec(),
@@ -885,7 +885,7 @@ impl Scenario for C06 {
     }
     fn meta() -> Meta {
         Meta {
-            rule: "FAULT-FREE BASELINE: no fault or schedule space is searched for this property. Same swarm workload as C03 plus data messages with stale/arbitrary length and offset values and, every 8th run, the four bitmask kinds built through their public constructors for all four argument pairs; the real encoder's octets (simulator-owned writer, PRNG prefix removed) must equal the reference encoder's byte for byte; the first differing offset is reported. distinct_nontrivial = distinct values (control with >= 2 AVPs, data messages, AVPs with > 2 payload octets, constructor argument pairs).",
+            rule: "NO TRANSPORT FAULT applies to this property (its quantifier has none); what is injected is the execution environment (one case in ten runs right after a refused operation on the same thread, or inside a destructor while the thread unwinds: faults_fired env-*) and the behaviour of the Reader/Writer seams. Same swarm workload as C03 plus data messages with stale/arbitrary length and offset values and, every 8th run, the four bitmask kinds built through their public constructors for all four argument pairs; the real encoder's octets (simulator-owned writer, PRNG prefix removed) must equal the reference encoder's byte for byte; the first differing offset is reported. distinct_nontrivial = distinct values (control with >= 2 AVPs, data messages, AVPs with > 2 payload octets, constructor argument pairs).",
             assumptions: vec![
                 "trusted base: the reference encoder in /verif/sim/src/model (written from RFC 2661 with the crate's bit numbering, cross-checked against the repository's octet vectors in selftest)",
                 "which of the two low-octet bits carries which named capability is calibrated from each kind's own public accessors, so a repair on either side (constructor or accessor) is accepted",
@@ -1305,7 +1305,7 @@ impl Scenario for C07 {
     }
     fn meta() -> Meta {
         Meta {
-            rule: "FAULT-FREE BASELINE: no fault or schedule space is searched for this property. Each run encodes the run's forced AVP kind at typical and boundary sizes, PRNG AVPs and control messages, AVP payloads of 1016/1017/1018/1019/1273/2000 octets, hidden values of 1016-1030 octets, (every 6th run) control messages assembled to 65534/65535/65536/65537 octets from 1023-octet AVPs plus a filler, messages holding one oversize AVP, and hide() inputs at 2+|payload|+|lp| = 1007/1008/1009/1024 and original AVPs of 1022-2006 octets; in dev and release profile. Whenever the encoder returns, an independent length walker (flag word, Length, 10-bit AVP lengths only) must find Length = octets emitted, records tiling the body exactly, 6 + get_length() = record size for every AVP, and the back-patch recorded at the writer seam equal to the value's extent; a refusal (unwind) is accepted only for oversize values. distinct_nontrivial = distinct cases with an AVP over 255 octets, a message with >= 2 AVPs, or a hide call.",
+            rule: "NO TRANSPORT FAULT applies to this property (its quantifier has none); what is injected is the execution environment (one case in ten runs right after a refused operation on the same thread, or inside a destructor while the thread unwinds: faults_fired env-*) and the behaviour of the Reader/Writer seams. Each run encodes the run's forced AVP kind at typical and boundary sizes, PRNG AVPs and control messages, AVP payloads of 1016/1017/1018/1019/1273/2000 octets, hidden values of 1016-1030 octets, (every 6th run) control messages assembled to 65534/65535/65536/65537 octets from 1023-octet AVPs plus a filler, messages holding one oversize AVP, and hide() inputs at 2+|payload|+|lp| = 1007/1008/1009/1024 and original AVPs of 1022-2006 octets; in dev and release profile. Whenever the encoder returns, an independent length walker (flag word, Length, 10-bit AVP lengths only) must find Length = octets emitted, records tiling the body exactly, 6 + get_length() = record size for every AVP, and the back-patch recorded at the writer seam equal to the value's extent; a refusal (unwind) is accepted only for oversize values. distinct_nontrivial = distinct cases with an AVP over 255 octets, a message with >= 2 AVPs, or a hide call.",
             assumptions: vec!["'fails loudly' = unwinds; caught under a silent panic hook"],
             real: vec!["Message::write", "AVP::write", "AVP::get_length", "AVP::hide"],
             stub: vec![STUBS[0], "independent length walker (model)", "model MD5 / decrypt to read the stored original length"],
